@@ -46,19 +46,18 @@ def mix (salt : Nat) (sc : List (Option Nat)) (ar : List (List Nat)) (vs : List 
   let r := mixScalars salt sc vs
   mixArrays r.1 ar r.2
 
-/-- `mixK(salt, x, y, read)` of the skipping processor: the value list has one entry per wired port
-    (the entry of an input that was not pulled is a placeholder the function does not use) -/
-def mixK (salt : Nat) (_sc : List (Option Nat)) (_ar : List (List Nat)) (vs : List Nat) : Nat :=
+/-- `mixK(salt, x, y, read)` of the skipping processor: one entry per wired port, `none` for an
+    input that was not pulled -/
+def mixK (salt : Nat) (_sc : List (Option Nat)) (_ar : List (List Nat)) (vs : List (Option Nat)) : Nat :=
   match vs with
-  | [x, y] =>
-    let h := (salt * 31 + 11 + x) % M
-    if x > 0 then (h * 31 + 11 + y) % M else (h * 31 + 3) % M
+  | [some x, some y] => ((salt * 31 + 11 + x) % M * 31 + 11 + y) % M     -- B was pulled
+  | [some x, none] => ((salt * 31 + 11 + x) % M * 31 + 3) % M            -- B was not pulled
   | _ => 0
 
 /-- which inputs the skipping processor pulls: A always, B only when A's value is > 0 -/
-def readsK (acc : List Nat) : Bool :=
+def readsK (acc : List (Option Nat)) : Bool :=
   match acc with
-  | [x] => decide (x > 0)
+  | [some x] => decide (x > 0)
   | _ => true
 
 /-! ### parsing -/
@@ -103,7 +102,7 @@ def pNode : P (Node Nat) := do
   else if t == "S" then
     let salt ← pNat
     let w ← pWiring
-    pure (.struct { fn := mix salt, scalars := w.1, arrays := w.2, cache := 0, version := 0,
+    pure (.struct { fn := fun sc ar ovs => mix salt sc ar (ovs.map (·.getD 0)), scalars := w.1, arrays := w.2, cache := 0, version := 0,
                     remembered := none, flag := false })
   else if t == "K" then
     -- the skipping processor of the harness (c11K): reads A, and reads B only when A's value is > 0
